@@ -97,6 +97,16 @@ def run_case(case):
                                      detail=dict(trajectory=seq, xis=xis)))  # fmt: skip
                     break
                 margin = max(margin, mg)
+            # decade by decade: a power-like fall-off shrinks the difference by ~10 per decade; demand at least 2 (unless at the floor)
+            # (orders 0 and 1 only: the massive O(a_s^2) coefficients are LeProHQ's approximate ones, which wobble by a few per cent
+            # around Q2/m2 ~ 1e3 before they fall - measured 3.5e-2 -> 4.5e-2 -> 8e-4 - and are judged by the global criteria below)
+            if kind != "g1" and o <= 1:
+                for (xa, da), (xb, db) in zip(list(zip(xis, seq))[:-1], list(zip(xis, seq))[1:]):
+                    if da > 100 * FLOOR:
+                        compared += 1
+                        if not db <= da / 2.0 + FLOOR:
+                            viol.append(dict(sig=f"no-decay-decade|{kind}|{case['proc']}|{case['heavy'] if case['heavy']=='light' else 'heavy'}|o{o}", what=f"{name} {case['proc']} order {o} x={case['x']:.4g} m={m:.4g}: {label} |FFNS-FFN0|/N goes {da:.3g} -> {db:.3g} between Q2/m2={xa:g} and {xb:g} (trajectory {['%.2e' % v for v in seq]})"))
+                            break
             if len(seq) == 5 and seq[0] > 30 * FLOOR:
                 compared += 1
                 if not seq[3] <= seq[0] / 30.0 + FLOOR:
